@@ -446,6 +446,15 @@ class Engine:
         mm = re.match(r"^(u8|u16|u32|u64|usize|i8|i16|i32|i64|isize|u128|i128)::(MIN|MAX)$", s)
         if mm:
             return INT_RANGES[mm.group(1)][0 if mm.group(2) == "MIN" else 1]
+        fm = re.match(r"^(-?(?:\d[\d_]*\.?[\d_]*(?:[eE][+-]?\d+)?|inf|NaN))f64$", s)
+        if fm:
+            # IEEE-754 doubles are z3 floating-point terms (only specs that put f64 values in use them)
+            txt = fm.group(1).replace("_", "")
+            if txt == "NaN":
+                return z3.fpNaN(z3.Float64())
+            if txt.endswith("inf"):
+                return z3.fpMinusInfinity(z3.Float64()) if txt.startswith("-") else z3.fpPlusInfinity(z3.Float64())
+            return z3.FPVal(float(txt), z3.Float64())
         if s.startswith('b"'):
             return ("bytes_const", s)
         if s.startswith('"'):
@@ -503,6 +512,17 @@ class Engine:
         return ((v - lo) % width) + lo
 
     def binop(self, op, a, b, ty):
+        if (is_sym(a) and z3.is_fp(a)) or (is_sym(b) and z3.is_fp(b)):
+            rm = z3.RNE()
+            fpops = {"Lt": z3.fpLT, "Le": z3.fpLEQ, "Gt": z3.fpGT, "Ge": z3.fpGEQ, "Eq": z3.fpEQ, "Ne": z3.fpNEQ}
+            if op in fpops:
+                return fpops[op](a, b)
+            arith = {"Add": z3.fpAdd, "Sub": z3.fpSub, "Mul": z3.fpMul, "Div": z3.fpDiv}
+            if op in arith:
+                return arith[op](rm, a, b)
+            if op == "Rem":
+                return z3.fpRem(a, b)
+            raise Unsupported("floating-point operator " + op)
         if op in ("Lt", "Le", "Gt", "Ge", "Eq", "Ne"):
             if isinstance(a, bool) and isinstance(b, bool):
                 return {"Eq": a == b, "Ne": a != b}[op]
@@ -616,6 +636,16 @@ class Engine:
             kind, ty = cm.group(3), cm.group(2)
             if kind == "IntToInt":
                 return self.wrap(v, ty)
+            if kind == "FloatToInt" and ty in INT_RANGES and is_sym(v) and z3.is_fp(v):
+                # `as` saturates and maps NaN to 0
+                lo, hi = INT_RANGES[ty]
+                t = z3.fpRoundToIntegral(z3.RTZ(), v)
+                as_int = z3.ToInt(z3.fpToReal(t))
+                return z3.If(z3.fpIsNaN(v), 0, z3.If(z3.fpGEQ(v, z3.FPVal(float(hi + 1), z3.Float64())), hi,
+                                                       z3.If(z3.fpLEQ(v, z3.FPVal(float(lo), z3.Float64())), lo, as_int)))
+            if kind == "IntToFloat" and ty == "f64":
+                V = v if is_sym(v) else z3.IntVal(v)
+                return z3.fpToFP(z3.RNE(), z3.ToReal(V), z3.Float64())
             if kind in ("Transmute", "PtrToPtr"):
                 return v
             if kind == "PointerCoercion":
